@@ -569,42 +569,53 @@ def laplacian_composition(chk):
 
 
 def public_wrappers(chk):
-    """solve_poisson_bvp / solve_poisson_ivp: the caller's grid and values go to _interpolate_molgrid_helper, and the per-atom callable hands the
-    atomic grid, the atom's values and EVERY option of the caller to the atomic solver under the right parameter (positions resolved against the
-    real signature of the atomic solver)."""
+    """solve_poisson_bvp / solve_poisson_ivp on a two-atom molecular grid, executed together with the (private) molecular helper: the atomic solver
+    is called once per atom with that atom's grid and EVERY option of the caller under the right parameter (the recorded call is bound against
+    the real signature of the atomic solver, so positional and keyword forms, lambdas, partials or pass-through arguments are all the same),
+    and the returned callable is the sum of the atomic solutions."""
     eng = chk.eng
-    import ast as _ast
+    N0, N1 = z3.Ints("N0 N1")
+    F = z3.Function("f_value", IS, RS)
+    AIMW = z3.Function("aim_weight", IS, RS)
+    INT = z3.Function("atom_solution", IS, IS, RS)
     for which, opts in (("bvp", ["transform", "boundary", "include_origin", "remove_large_pts", "ode_params"]), ("ivp", ["transform", "r_interval", "ode_params"])):
         fq = f"{MODP}.solve_poisson_{which}"
         fqa = f"{MODP}._solve_poisson_{which}_atomgrid"
-        rec = {"helper": [], "atom": []}
+        rec = []
         markers = {o: I.Opaque("caller-option", name=o) for o in opts}
-        grid_m, vals_m, ag_m, av_m = (I.Opaque("marker", name=n) for n in ("molgrid", "func_vals", "atom_grid", "atom_values"))
 
-        def helper_contract(eng_, f, args, kwargs):
-            rec["helper"].append((list(args), dict(kwargs)))
-            cb = args[2] if len(args) > 2 else kwargs.get("interpolate_callable")
-            return eng_.call(cb, [ag_m, av_m], {})
+        def atom_contract(eng_, f, args, kwargs):
+            bound = framework.bound_arguments(eng_, f, args, kwargs)
+            n_ = len(rec)
+            rec.append(bound)
 
-        def atom_contract(eng_, f, args, kwargs, fqa=fqa):
-            # bind the call against the real signature of the atomic solver
-            fn = eng_.get_function(MODP, fqa.rsplit(".", 1)[1])
-            names = [a.arg for a in fn.node.args.args]
-            bound = dict(zip(names, args))
-            bound.update(kwargs)
-            rec["atom"].append(bound)
-            return I.Opaque("atomic-solution")
+            def sol(eng__, pts):
+                return I.Arr((pts.shape[0],), lambda j, n_=n_: INT(n_, T.zi(j)), "real")
+            return I.Model("atomic-solution", sol)
 
         def thunk(eng_, which=which, opts=opts):
-            rec["helper"].clear()
-            rec["atom"].clear()
-            eng_.callee_contracts[f"{MODP}._interpolate_molgrid_helper"] = helper_contract
+            del rec[:]
+            eng_.assume(z3.And(N0 >= 1, N1 >= 1, NE >= 1, j0 >= 0, j0 < NE))
+            total = N0 + N1
+            ats = []
+            for a_ in range(2):
+                o = I.Obj(eng_.get_class("grid.atomgrid", "AtomGrid"))
+                o.fields["_atom_index"] = a_
+                ats.append(o)
+            mg = I.Obj(eng_.get_class("grid.molgrid", "MolGrid"))
+            offs = [z3.IntVal(0), N0, total]
+            mg.fields.update(_indices=I.Arr((3,), lambda j: M.select_const(j, [lambda v=v: v for v in offs]), "int"),
+                             _atcoords=I.Arr((2, 3), lambda a, c: z3.Function("centre", IS, IS, RS)(T.zi(a), T.zi(c)), "real"),
+                             _aim_weights=I.Arr((total,), lambda j: AIMW(T.zi(j)), "real"), _atgrids=ats, _kdtree=None,
+                             _points=I.Arr((total, 3), lambda j, c: GP(T.zi(j), T.zi(c)), "real"), _weights=I.Arr((total,), lambda j: z3.RealVal(1), "real"))
+            fv = I.Arr((total,), lambda j: F(T.zi(j)), "real")
             eng_.callee_contracts[fqa] = atom_contract
             try:
-                res = eng_.call(eng_.get_function(MODP, f"solve_poisson_{which}"), [grid_m, vals_m], {o: markers[o] for o in opts})
-                return res, [(list(a), dict(k)) for a, k in rec["helper"]], [dict(b) for b in rec["atom"]]
+                res = eng_.call(eng_.get_function(MODP, f"solve_poisson_{which}"), [mg, fv], {o: markers[o] for o in opts})
+                ev = I.Arr((NE, 3), lambda j, c: EP(T.zi(j), T.zi(c)), "real")
+                out = eng_.call(res, [ev])
+                return out, [dict(b) for b in rec], ats
             finally:
-                eng_.callee_contracts.pop(f"{MODP}._interpolate_molgrid_helper", None)
                 eng_.callee_contracts.pop(fqa, None)
         outs = chk.explore(f"solve_poisson_{which}/wrapper", thunk, func=fq)
         rets = [o for o in outs if o.kind == "return"]
@@ -612,14 +623,14 @@ def public_wrappers(chk):
         chk.add(f"solve_poisson_{which}/post/returns-on-every-path", [], z3.BoolVal(bool(rets) and len(rets) == len(outs)), func=fq,
                 meta={"replay": rep, "paths": str([(o.kind, o.exc, o.note) for o in outs])})
         for oi, o in enumerate(rets):
-            res, helper, atom = o.value
-            okh = len(helper) == 1 and len(helper[0][0]) >= 2 and helper[0][0][0] is grid_m and helper[0][0][1] is vals_m
-            chk.add(f"solve_poisson_{which}/post/grid-and-values-go-to-the-molecular-helper", [], z3.BoolVal(bool(okh)), func=fq, meta={"replay": rep})
-            oka = len(atom) == 1 and atom[0].get("atomgrid") is ag_m and atom[0].get("func_vals") is av_m and all(atom[0].get(o_) is markers[o_] for o_ in opts)
-            chk.add(f"solve_poisson_{which}/post/atomic-solver-gets-the-atoms-grid-values-and-every-option-of-the-caller", [], z3.BoolVal(bool(oka)), func=fq,
-                    meta={"replay": rep, "detail": str({k: getattr(v, "data", v) for k, v in (atom[0] if atom else {}).items()})[:300]})
-            chk.add(f"solve_poisson_{which}/post/returns-the-helpers-callable", [], z3.BoolVal(isinstance(res, I.Opaque) and res.kind == "atomic-solution"), func=fq,
-                    meta={"replay": rep})
+            out, atom, ats = o.value
+            oka = len(atom) == 2 and all(atom[a_].get("atomgrid") is ats[a_] and isinstance(atom[a_].get("func_vals"), I.Arr) and
+                                         all(atom[a_].get(o_) is markers[o_] for o_ in opts) for a_ in range(2))
+            chk.add(f"solve_poisson_{which}/post/atomic-solver-gets-each-atoms-grid-and-every-option-of-the-caller", [], z3.BoolVal(bool(oka)), func=fq,
+                    meta={"replay": rep, "detail": str([{k: getattr(v, "data", type(v).__name__) for k, v in b.items()} for b in atom])[:400]})
+            chk.add(f"solve_poisson_{which}/post/result-is-the-sum-of-the-atomic-solutions", list(o.pc),
+                    z3.And(z3.BoolVal(isinstance(out, I.Arr) and out.ndim == 1), T.zi(out.shape[0]) == NE, T.zr(out.fn(j0)) == INT(0, j0) + INT(1, j0))
+                    if isinstance(out, I.Arr) and out.ndim == 1 else z3.BoolVal(False), func=fq, meta={"replay": rep})
 
 
 def radial_ode_setup(chk):
